@@ -194,6 +194,49 @@ def run(ctx):
         else:
             ctx.ok('C11.3-eq-hash', inst, 'floats are not hashed by raw bits')
 
+    ctx.rule('C11.3-eq-hash-fields', 'for every struct of the term model with both ==, hash and/or an order, hash reads no field that == ignores, and the order reads exactly the fields == reads '
+             '(a hash over an ignored field separates equal values; an order over fewer/more fields disagrees with ==)', floor=8)
+    from ..families import fields_touched, bodies_of_fn, check_self_compare
+    for ty in sorted(ctx.F.adts):
+        adt = ctx.F.adts[ty]
+        if not ty.startswith('erltf::') or len(adt['variants']) != 1:
+            continue
+        sets = {}
+        for tr, m in (('core::cmp::PartialEq', 'eq'), ('core::hash::Hash', 'hash'), ('core::cmp::Ord', 'cmp')):
+            bs = [b_ for pfx in ('<%s as %s>::%s' % (ty, tr, m), "<%s<'a> as %s>::%s" % (ty, tr, m)) for b_ in bodies_of_fn(P, pfx)]
+            if bs:
+                fs = set()
+                for FB in bs:
+                    fs |= fields_touched(FB, ty)
+                    if m in ('eq', 'cmp'):
+                        check_self_compare(ctx, FB, 'C11.3-eq-hash-fields')
+                sets[m] = fs
+        short = ty.rsplit('::', 1)[1]
+        if 'eq' in sets and 'hash' in sets:
+            extra = sets['hash'] - sets['eq']
+            if extra:
+                ctx.bad('C11.3-eq-hash-fields', short + ':hash', 'hash reads %s, which == does not look at: two equal %s values can hash differently, so a HashMap/HashSet keyed by terms duplicates or loses them'
+                        % (sorted(extra), short), key='EQHASH:%s:hash-reads:%s' % (ty, ','.join(sorted(extra))))
+            else:
+                ctx.ok('C11.3-eq-hash-fields', short + ':hash', 'hash reads %s, a subset of what == reads' % sorted(sets['hash']))
+        if 'eq' in sets and 'cmp' in sets:
+            if sets['cmp'] != sets['eq']:
+                ctx.bad('C11.3-eq-hash-fields', short + ':cmp', 'the order reads %s, == reads %s: cmp() == Equal and == disagree' % (sorted(sets['cmp']), sorted(sets['eq'])),
+                        key='EQORD:%s:fields' % ty)
+            else:
+                ctx.ok('C11.3-eq-hash-fields', short + ':cmp', 'order and == read the same fields %s' % sorted(sets['eq']))
+
+    ctx.rule('C11.1-no-self-compare', 'no comparison on the comparison path of either term type has the same operand on both sides (a.f.cmp(&a.f) is constantly Equal: '
+             'antisymmetry and agreement with == are lost for values differing in f); counted: comparisons scanned', floor=40)
+    n_cmp = 0
+    for p_ in sorted({q for root in (CMP_O, CMP_B) for q in P.reachable_from([root]) if ctx.F.bodies[q]['crate'] == 'erltf'}):
+        before = len(ctx.records)
+        k = check_self_compare(ctx, P.B(p_), 'C11.1-no-self-compare')
+        n_cmp += k
+        if k and len(ctx.records) == before:
+            ctx.ok('C11.1-no-self-compare', p_, '%d comparison(s), operands differ in each' % k)
+    ctx.info_note('%d comparisons scanned for identical operands' % n_cmp)
+
     # ---------------- clause 4: lossy numeric conversion on the comparison path -----------------------------------------
     ctx.rule('C11.4-exact-numbers', 'no integer is rounded to f64 on the comparison path (i64 as f64, accumulation of big-integer digits into an f64) unless range-guarded to +-2^53', floor=4)
     for root in (CMP_O, CMP_B):
